@@ -81,9 +81,8 @@ func (b *Broker) Close() {
 	}
 	// let every connection goroutine finish its Close() (unsubscribes, last will) before the
 	// cluster state and the store go away underneath it
-	deadline := time.Now().Add(3 * time.Second)
-	for b.Svc.VerifConnections() > 0 && time.Now().Before(deadline) {
-		time.Sleep(200 * time.Microsecond)
+	for _, c := range b.Clients {
+		c.WaitClosed()
 	}
 	b.Settle()
 	b.Svc.Close()
@@ -111,9 +110,24 @@ func (b *Broker) MintKey(salt, master uint16, contract, sign uint32, perms uint8
 	return s
 }
 
+// trackedConn is the broker's end of the pipe; Conn.Close() closes the socket as its very
+// last action, which tells the harness that the connection has been fully torn down.
+type trackedConn struct {
+	net.Conn
+	once   sync.Once
+	closed chan struct{}
+}
+
+func (t *trackedConn) Close() error {
+	err := t.Conn.Close()
+	t.once.Do(func() { close(t.closed) })
+	return err
+}
+
 // Client is one attached connection.
 type Client struct {
 	Name string
+	srv  *trackedConn
 	conn net.Conn
 	mu   sync.Mutex
 	got  []string
@@ -124,9 +138,10 @@ type Client struct {
 // Attach connects a new client.
 func (b *Broker) Attach(name string) *Client {
 	srv, cli := net.Pipe()
-	c := &Client{Name: name, conn: cli}
+	t := &trackedConn{Conn: srv, closed: make(chan struct{})}
+	c := &Client{Name: name, conn: cli, srv: t}
 	b.Clients[name] = c
-	b.Svc.VerifAttach(srv)
+	b.Svc.VerifAttach(t)
 	go c.reader()
 	return c
 }
@@ -182,8 +197,19 @@ func (c *Client) SendRaw(b []byte) error {
 	return err
 }
 
-// CloseSocket closes the client's end.
-func (c *Client) CloseSocket() { c.conn.Close() }
+// CloseSocket closes the client's end and waits until the broker has torn the connection down.
+func (c *Client) CloseSocket() {
+	c.conn.Close()
+	c.WaitClosed()
+}
+
+// WaitClosed waits for the broker-side Close() of this connection to finish.
+func (c *Client) WaitClosed() {
+	select {
+	case <-c.srv.closed:
+	case <-time.After(3 * time.Second):
+	}
+}
 
 func (c *Client) count() int {
 	c.mu.Lock()
